@@ -55,6 +55,10 @@ CHECKS = {
    text="Three simulated workloads. (orders) tracks, nested tracks and send tracks carrying a rate-probe effect are created in every order relative to device sample-rate changes (8 kHz .. 192 kHz) and callbacks; at every process call the rate the effect was last told (init / on_change_sample_rate) must equal 1/dt and the device rate in force. (sched) the add-track paths are preempted by the seeded gate scheduler between reading the shared sample rate and enqueueing the track, against a device task that changes the rate and runs callbacks. (seconds) one scene described in seconds - a finite sound at any source and playback rate, a clock, a volume tween, a delay echo - is rendered in three worlds at different device rates, one of which changes its rate mid-stream; sound duration, clock ticks, tween duration and echo time must agree in seconds within two callbacks.",
    note="One open known finding (a track queued while the rate changes keeps the old rate in its effects): while it is listed, rate changes are not generated while a track is waiting to be picked up and the sched stream runs without rate changes; its witness is replayed on every run. Filter frequency responses are not measured (C14 territory).",
    technique="deterministic simulation: probe effects observing the rate in force over op orders and seeded thread schedules; twin worlds at different device rates compared in the seconds domain"),
+ "C17": dict(level="exploration", design="3 C17",
+   text="LFOs, tweeners and a counting probe modulator run in the real manager on the simulated device; probe effects on sub-tracks own kira::Parameters linked to them through mappings (normal, inverted and partial input ranges, every easing) and log at every process call the modulator values visible through Info and the parameter values. Reference: closed-form LFO with the phase accumulated once per internal chunk, closed-form tweener, Mapping::map re-implemented. Checked per internal chunk under seeded add / command / drop histories and callback partitions: value == reference in the same chunk (no one-chunk lag), LFO within offset +- |amplitude|, linked parameter == mapping of the current value, held after the modulator is removed and the id no longer resolves, exactly one update per chunk (with the chunk's dt) before any reader.",
+   note="LFO parameters change by instant commands; waveform shapes follow the formulas pinned by the repository's unit tests; modulator-to-modulator links are not generated (their update order is creation order).",
+   technique="deterministic simulation against closed-form reference models; probe Effect / Modulator observing Info inside the real update order"),
 }
 NA = [
  ("C13", "pure DSP laws of (parameters, sample rate, input signal): no schedule, clock, fault or interleaving for a simulator to control; see DESIGN.md section 5"),
